@@ -1615,8 +1615,8 @@ static Node *stmt(Token **rest, Token *tok) {
       error_tok(tok, "stray case");
 
     Node *node = new_node(ND_CASE, tok);
-    int begin = const_expr(&tok, tok->next);
-    int end;
+    long begin = const_expr(&tok, tok->next);
+    long end;
 
     if (equal(tok, "...")) {
       // [GNU] Case ranges, e.g. "case 1 ... 5:"
@@ -1625,6 +1625,14 @@ static Node *stmt(Token **rest, Token *tok) {
         error_tok(tok, "empty case range specified");
     } else {
       end = begin;
+    }
+
+    // A case value is converted to the promoted type of the controlling
+    // expression, which is compared in 32 bits unless it is 8 bytes wide.
+    add_type(current_switch->cond);
+    if (current_switch->cond->ty->size < 8) {
+      begin = (int)begin;
+      end = (int)end;
     }
 
     tok = skip(tok, ":");
